@@ -236,9 +236,30 @@ class AbsEval(ConstEval):
                 raise
         return super().eval(e, env, mod)
 
+    def eval_args(self, e, env, mod):
+        out = []
+        for a in e.args:
+            if isinstance(a, ast.Starred):
+                v = self.eval(a.value, env, mod)
+                if isinstance(v, AObj) and getattr(v, "fields", None):
+                    v = [v.attrs[f_] for f_ in v.fields]
+                if isinstance(v, Res) or not isinstance(v, (list, tuple)):
+                    raise NotConstant("star-argument that is not a concrete sequence")
+                out.extend(v)
+            else:
+                out.append(self.eval(a, env, mod))
+        return out
+
     # ------------------------------------------------------------------ calls
     def call(self, e, env, mod):
         ftxt = ast.unparse(e.func)
+        # calls through values: table[key](x), (f or g)(x), a local holding a function
+        if not isinstance(e.func, (ast.Name, ast.Attribute)) or (isinstance(e.func, ast.Name) and e.func.id in env and not isinstance(env[e.func.id], Opaque)):
+            f = self.eval(e.func, env, mod)
+            if isinstance(f, FuncRef) or (isinstance(f, Opaque) and f.what == "lambda") or (isinstance(f, tuple) and f and f[0] == "boundfunc") or f in (float, int, str, bool, len, abs, bytes):
+                if (f.mod, f.node.name) in self.func_hooks if isinstance(f, FuncRef) else False:
+                    return self.call_func(f, self.eval_args(e, env, mod), {k.arg: self.eval(k.value, env, mod) for k in e.keywords if k.arg})
+                return self.apply_value(f, self.eval_args(e, env, mod), mod)
         if ftxt.startswith(("_LOGGER.", "logging.", "_logger.")):
             for a in e.args[1:]:
                 self.eval(a, env, mod)  # arguments are evaluated (they can raise)
@@ -249,6 +270,21 @@ class AbsEval(ConstEval):
                 kw = {k.arg: self.eval(k.value, env, mod) for k in e.keywords if k.arg}
                 return h(args, kw)
         name = ftxt.split(".")[-1]
+        if name == "reduce" and 2 <= len(e.args) <= 3:
+            f = self.eval(e.args[0], env, mod)
+            items = self.eval(e.args[1], env, mod)
+            if isinstance(items, Res) or not isinstance(items, (list, tuple, str, bytes, range)):
+                raise NotConstant("reduce over a non-concrete iterable")
+            items = list(items)
+            if len(e.args) == 3:
+                acc = self.eval(e.args[2], env, mod)
+            elif items:
+                acc, items = items[0], items[1:]
+            else:
+                raise AbsRaise("TypeError", "reduce() of empty iterable with no initial value")
+            for x in items:
+                acc = self.apply_value(f, [acc, x], mod)
+            return acc
         if isinstance(e.func, ast.Attribute) and isinstance(e.func.value, ast.Call) and isinstance(e.func.value.func, ast.Name) and e.func.value.func.id == "super" and not e.func.value.args:
             # super().m(...): the next definition of m after the object's own class in the repository MRO (external bases: no effect)
             obj = env.get("self")
@@ -275,6 +311,12 @@ class AbsEval(ConstEval):
                 if pat is not None:
                     return self.regex_call(pat, e.func.attr, [self.eval(a, env, mod) for a in e.args])
             args = [self.eval(a, env, mod) for a in e.args]
+            if isinstance(base, AObj) and e.func.attr == "_replace" and getattr(base, "fields", None):
+                kw = {k.arg: self.eval(k.value, env, mod) for k in e.keywords if k.arg}
+                new = AObj(base.pytype, dict(base.attrs), name=base.name, cls_key=base.cls_key)
+                new.fields = list(base.fields)
+                new.attrs.update(kw)
+                return new
             if isinstance(base, AObj):
                 m = base.attrs.get(e.func.attr)
                 if callable(m):
@@ -311,7 +353,7 @@ class AbsEval(ConstEval):
             if isinstance(e.func, ast.Name) and (e.func.id in env):
                 f = env[e.func.id]
             if not isinstance(f, FuncRef):
-                args = [self.eval(a, env, mod) for a in e.args]
+                args = self.eval_args(e, env, mod)
                 kw = {k.arg: self.eval(k.value, env, mod) for k in e.keywords if k.arg}
                 r = self.builtin(name, args, kw, e)
                 if r is not NotImplemented:
@@ -328,10 +370,28 @@ class AbsEval(ConstEval):
             if (cm, cn) in self.M.classes:
                 obj = AObj(cn, {}, cls_key=(cm, cn))
                 init = self.M.find_method((cm, cn), "__init__")
+                args = self.eval_args(e, env, mod)
+                kw = {k.arg: self.eval(k.value, env, mod) for k in e.keywords if k.arg}
                 if init is not None:
-                    args = [self.eval(a, env, mod) for a in e.args]
-                    kw = {k.arg: self.eval(k.value, env, mod) for k in e.keywords if k.arg}
                     self.call_func(FuncRef(init.mod, init.node), [obj] + args, kw)
+                else:
+                    # NamedTuple / dataclass style record: fields are the annotated names of the class body, in order, with their defaults
+                    cnode = self.M.classes[(cm, cn)].node
+                    fields = [(s_.target.id, s_.value) for s_ in cnode.body if isinstance(s_, ast.AnnAssign) and isinstance(s_.target, ast.Name)]
+                    if not fields and (args or kw):
+                        raise NotConstant(f"constructor of {cn} with arguments but no __init__ / fields")
+                    if len(args) > len(fields):
+                        raise AbsRaise("TypeError", f"{cn}() takes {len(fields)} positional arguments")
+                    for i, (fname, dflt) in enumerate(fields):
+                        if i < len(args):
+                            obj.attrs[fname] = args[i]
+                        elif fname in kw:
+                            obj.attrs[fname] = kw[fname]
+                        elif dflt is not None:
+                            obj.attrs[fname] = self.eval(dflt, {}, cm)
+                        else:
+                            raise AbsRaise("TypeError", f"{cn}() missing argument {fname}")
+                    obj.fields = [f_ for f_, _ in fields]
                 return obj
         try:
             return super().call(e, env, mod)
@@ -488,11 +548,112 @@ class AbsEval(ConstEval):
                 else:
                     raise NotConstant("del target")
             return
+        if isinstance(s, ast.Match):
+            subj = self.eval(s.subject, env, mod)
+            for case in s.cases:
+                binds = {}
+                if self.match_pattern(case.pattern, subj, binds, env, mod):
+                    env2 = env
+                    env2.update(binds)
+                    if case.guard is not None and not self.truth(self.eval(case.guard, env2, mod)):
+                        continue
+                    self.exec_block(case.body, env2, mod)
+                    return
+            return
+        if isinstance(s, (ast.With, ast.AsyncWith)):
+            suppressed = []
+            for it in s.items:
+                ce_ = it.context_expr
+                txt = ast.unparse(ce_.func) if isinstance(ce_, ast.Call) else ""
+                if txt.endswith("suppress"):
+                    for a in ce_.args:
+                        v = self.eval(a.value if isinstance(a, ast.Starred) else a, env, mod)
+                        vs = v if isinstance(v, (tuple, list)) and isinstance(a, ast.Starred) else [v]
+                        for x in vs:
+                            suppressed.append(x[1] if isinstance(x, tuple) and len(x) == 2 and x[0] == "exception" else (x.what.split()[-1].split(".")[-1] if isinstance(x, Opaque) else str(x)))
+                    if it.optional_vars is not None:
+                        raise NotConstant("with ... as target")
+                else:
+                    raise NotConstant(f"with-statement over {ast.unparse(ce_)[:40]}")
+            try:
+                self.exec_block(s.body, env, mod)
+            except AbsRaise as ex:
+                if not _exc_matches(ex.cls, suppressed):
+                    raise
+            return
         if isinstance(s, (ast.Global, ast.Nonlocal)):
             return
         return super().exec_stmt(s, env, mod)
 
+    def match_pattern(self, pat, subj, binds, env, mod):
+        """structural pattern matching on concrete values, abstract objects (class patterns by type tag) and terms (captures / wildcard only)"""
+        if isinstance(pat, ast.MatchAs):
+            if pat.pattern is not None and not self.match_pattern(pat.pattern, subj, binds, env, mod):
+                return False
+            if pat.name is not None:
+                binds[pat.name] = subj
+            return True
+        if isinstance(pat, ast.MatchOr):
+            return any(self.match_pattern(p, subj, binds, env, mod) for p in pat.patterns)
+        if isinstance(pat, ast.MatchValue):
+            v = self.eval(pat.value, env, mod)
+            r = self.compare(ast.Eq(), subj, v, pat)
+            if r is None:
+                try:
+                    r = subj == v
+                except Exception:
+                    r = False
+            return bool(r)
+        if isinstance(pat, ast.MatchSingleton):
+            return subj is pat.value
+        if isinstance(pat, ast.MatchSequence):
+            if isinstance(subj, Res):
+                raise SymbolicBranch(Res("match-sequence", subj), pat)
+            if not isinstance(subj, (list, tuple)) :
+                return False
+            star = [i for i, p in enumerate(pat.patterns) if isinstance(p, ast.MatchStar)]
+            if not star:
+                if len(subj) != len(pat.patterns):
+                    return False
+                return all(self.match_pattern(p, x, binds, env, mod) for p, x in zip(pat.patterns, subj))
+            i = star[0]
+            after = len(pat.patterns) - i - 1
+            if len(subj) < i + after:
+                return False
+            for p, x in zip(pat.patterns[:i], subj[:i]):
+                if not self.match_pattern(p, x, binds, env, mod):
+                    return False
+            for p, x in zip(pat.patterns[i + 1:], subj[len(subj) - after:] if after else []):
+                if not self.match_pattern(p, x, binds, env, mod):
+                    return False
+            if pat.patterns[i].name:
+                binds[pat.patterns[i].name] = list(subj[i:len(subj) - after])
+            return True
+        if isinstance(pat, ast.MatchClass):
+            cls_v = self.eval(pat.cls, env, mod)
+            cname = getattr(cls_v, "__name__", None) or (cls_v.what.split()[-1].split(".")[-1] if isinstance(cls_v, Opaque) else (cls_v[1] if isinstance(cls_v, tuple) and len(cls_v) == 2 and cls_v[0] == "exception" else str(cls_v)))
+            if isinstance(subj, tuple) and len(subj) == 2 and subj[0] == "exception":
+                ok = _exc_matches(subj[1], [cname])
+            else:
+                t = pytype_of(subj)
+                if t is None:
+                    raise SymbolicBranch(Res("match-class", subj, cname), pat)
+                ok = t == cname or (isinstance(subj, AObj) and subj.cls_key is not None and cname in [k[1] for k in self.M.mro(subj.cls_key)])
+            if not ok:
+                return False
+            if pat.patterns:
+                raise NotConstant("positional sub-patterns of a class pattern")
+            for k, p in zip(pat.kwd_attrs, pat.kwd_patterns):
+                if not (isinstance(subj, AObj) and k in subj.attrs and self.match_pattern(p, subj.attrs[k], binds, env, mod)):
+                    return False
+            return True
+        if isinstance(pat, ast.MatchMapping):
+            raise NotConstant("mapping pattern")
+        raise NotConstant(f"pattern {type(pat).__name__}")
+
     def assign(self, tgt, val, env, mod):
+        if isinstance(tgt, (ast.Tuple, ast.List)) and isinstance(val, AObj) and getattr(val, "fields", None):
+            val = [val.attrs[f_] for f_ in val.fields]
         if isinstance(tgt, (ast.Tuple, ast.List)) and isinstance(val, Res):
             for k, t in enumerate(tgt.elts):
                 self.assign(t, Res("item", val, k), env, mod)
@@ -508,6 +669,26 @@ class AbsEval(ConstEval):
                 base.attrs[tgt.attr] = val
                 return
         return super().assign(tgt, val, env, mod)
+
+    def apply_value(self, f, args, mod):
+        """call a function value (repository function, lambda, bound method of an abstract object)"""
+        if isinstance(f, FuncRef):
+            return self.call_func(f, args)
+        if isinstance(f, Opaque) and f.what == "lambda":
+            lam = f.node
+            params = [a.arg for a in lam.args.args]
+            return self.eval(lam.body, dict(zip(params, args)), f.mod or mod)
+        if isinstance(f, tuple) and f and f[0] == "boundfunc":
+            return self.call_func(FuncRef(f[2].mod, f[2].node), [f[1]] + list(args))
+        if callable(f) and f in (float, int, str, bool, len, abs, bytes):
+            r = self.builtin(f.__name__, list(args), {}, None)
+            if r is not NotImplemented:
+                return r
+            try:
+                return f(*args)
+            except (ValueError, TypeError, OverflowError) as ex:
+                raise AbsRaise(type(ex).__name__, str(ex))
+        raise NotConstant(f"call of function value {f!r}")
 
     def eval_expr(self, node, env, mod):
         """evaluate a construct expression (lambda ctx: ..., `this.x * this.y`, or a named function) on an abstract context"""
